@@ -51,6 +51,8 @@ pub struct Case {
     /// one op list per instance in Shared mode, otherwise one list shared by all
     pub histories: Vec<Vec<Op>>,
     pub obs_seed: u64,
+    /// "MVCC by data" (InstOpts::detached)
+    pub detached: bool,
 }
 
 fn degroup(ops: &mut [Op], nkeys: usize) {
@@ -82,6 +84,10 @@ pub fn build_case(profile_name: &str, mode: Mode, seed: u64, case: u64) -> Case 
     let filter_ok = matches!(mode, Mode::Single | Mode::Shared);
     let filter_seed = if filter_ok && rng.below(100) < u64::from(profile.filter_pct) { Some(rng.next_u64()) } else { None };
     let obs_seed = rng.next_u64();
+    // a quarter of the single-tree histories of the read-semantics profiles run detached from the tree's counters
+    // (derived from the case number, not drawn: the histories of the other cases stay what they were)
+    let detached = mode == Mode::Single && matches!(profile.name, "point" | "snapshot" | "scan" | "weak") && fnv64(&case.to_le_bytes()) % 4 == 0;
+    let filter_seed = if detached { None } else { filter_seed };
 
     let mut cfgs = vec![];
     let mut histories = vec![];
@@ -163,7 +169,7 @@ pub fn build_case(profile_name: &str, mode: Mode, seed: u64, case: u64) -> Case 
         }
     }
 
-    Case { profile, mode, uni, cfgs, filter_seed, histories, obs_seed }
+    Case { profile, mode, uni, cfgs, filter_seed, histories, obs_seed, detached }
 }
 
 fn case_hash(c: &Case) -> u64 {
@@ -287,6 +293,7 @@ pub fn run_case(case: &Case, keep: Option<&BTreeSet<usize>>, scratch: &Path, cas
     for (i, cfg) in case.cfgs.iter().enumerate() {
         let dir: PathBuf = base.join(format!("t{i}"));
         let opts = InstOpts {
+            detached: case.detached,
             filter_seed: case.filter_seed,
             shared: shared.clone(),
             obs_seed: case.obs_seed.wrapping_add(i as u64 * if case.mode == Mode::Shared { 7 } else { 0 }),
@@ -325,6 +332,9 @@ pub fn run_case(case: &Case, keep: Option<&BTreeSet<usize>>, scratch: &Path, cas
     }
 
     let max_len = case.histories.iter().map(Vec::len).max().unwrap_or(0);
+    if case.detached {
+        bump(&mut result.counters, "detached_histories", 1);
+    }
     'outer: for idx in 0..max_len {
         if keep.is_some_and(|k| !k.contains(&idx)) {
             continue;
@@ -377,6 +387,7 @@ pub fn run_case(case: &Case, keep: Option<&BTreeSet<usize>>, scratch: &Path, cas
     s.set("profile", J::s(case.profile.name));
     s.set("configs", J::Arr(case.cfgs.iter().map(TreeCfg::describe).collect()));
     s.set("filter", J::Bool(case.filter_seed.is_some()));
+    s.set("detached_counters", J::Bool(case.detached));
     s.set(
         "ops",
         J::Arr(
